@@ -801,7 +801,13 @@ fn gen_c01(rng: &mut Rng, seed: u64, index: u64, long: bool) -> Scenario {
         o.allow_random_cfg = false;
     }
     // full per-token commit is expensive: keep vocabularies moderate here
-    let (world, productive) = gen_world(rng, &o);
+    let (mut world, productive) = gen_world(rng, &o);
+    if faulty && rng.chance(0.3) {
+        // only the per-mask item budget is tight (and small enough to be hit exactly): a mask that
+        // is returned must still be the full mask
+        world.limits = LimitsSpec::default();
+        world.limits.step_max_items = rng.log_uniform(3, 400) as usize;
+    }
     let nv = world.vocab.words.len();
     let mut sc = base("C01", "accept", seed, index, world, productive);
     sc.fault_injecting = faulty;
